@@ -118,7 +118,7 @@ def data_off(cfg):
     return 32 if (cfg.get("unify") or cfg.get("backend") == "file") else 1
 
 
-def write_mcsync(wd, name, cfg, setup_text, progs, emit=False, liveness=False, invariants=True, hb=False, crash=False):
+def write_mcsync(wd, name, cfg, setup_text, progs, emit=False, liveness=False, invariants=True, hb=False, crash=False, cover=False):
     rv.ensure_dir(wd)
     n = len(progs)
     with open(os.path.join(wd, name + ".tla"), "w") as f:
@@ -138,7 +138,7 @@ def write_mcsync(wd, name, cfg, setup_text, progs, emit=False, liveness=False, i
         f.write("  Cap = %d\n  DataOff = %d\n  Kind = \"%s\"\n  MinSeg0 = %d\n  MaxRetries = %d\n" % (
             cfg["cap"], data_off(cfg), cfg["kind"], cfg["minseg"], cfg.get("retries", 5)))
         if not hb and not crash:
-            f.write("  Emit = %s\n" % ("TRUE" if emit else "FALSE"))
+            f.write("  Emit = %s\n  Cover = %s\n" % ("TRUE" if emit else "FALSE", "TRUE" if cover else "FALSE"))
         if crash:
             if invariants:
                 f.write("INVARIANTS LiveDisjoint LiveInBounds LiveIntact NoOutOfBounds CursorInBounds\n")
@@ -180,6 +180,19 @@ def violated_property(out):
 def parse_crash_at(out):
     ms = re.findall(r"crashAt = (-?\d+)", out)
     return int(ms[-1]) if ms else None
+
+
+def cover_schedules(wd, name, cfg, setup_text, progs):
+    """One shortest schedule per reachable arm of the micro-op table (exhaustive breadth-first run, one worker)."""
+    m, c = write_mcsync(wd, name, cfg, setup_text, progs, invariants=False, cover=True)
+    rc, out = rv.run_tlc(wd, m, c, workers=1, deque=False, timeout=900, heap="4g")
+    res = []
+    for line in out.splitlines():
+        line = line.strip()
+        if line.startswith('"{\\"cover\\"'):
+            e = json.loads(line[1:-1].replace('\\"', '"'))
+            res.append({"label": e["cover"], "schedule": e["sched"]})
+    return res
 
 
 def parse_sched_lines(out):
@@ -232,7 +245,7 @@ def validate_impl(trace, wd, name, cfg, setup_text, progs, timeout=900):
     rc, out = rv.run_tlc(wd, m, c, workers=1, env={"TRACE": trace}, timeout=timeout, heap="3g")
     if "TRACE-CONSUMED" not in out:
         raise ToolError("TraceSyncImpl did not consume %s: %s" % (trace, out[-2500:]))
-    m = re.search(r'<<"LABELS", \{([^}]*)\}>>', out)
+    m = re.search(r'"LABELS",\s*\{(.*?)\}\s*>>', out, re.S)
     LABELS_SEEN.update(re.findall(r'"([a-z_.]+)"', m.group(1)) if m else [])
     return [(int(a), int(b), w) for a, b, w in re.findall(r'<<"DRIFT", (\d+), (-?\d+), "([^"]*)">>', out)]
 
